@@ -59,9 +59,24 @@ def cleanup():
 
 # ------------------------------------------------------------------ builds
 
+def trim_gocache(limit_mb=3000):
+    """the generated parsers compiled by the X mechanism fill the Go build cache; keep it bounded"""
+    gc = GOENV.get("GOCACHE", "")
+    if not gc.startswith(CACHE) or not os.path.isdir(gc):
+        return
+    try:
+        mb = int(subprocess.run(["du", "-sm", gc], stdout=subprocess.PIPE, stderr=subprocess.DEVNULL).stdout.split()[0])
+    except Exception:
+        return
+    if mb > limit_mb:
+        shutil.rmtree(gc, ignore_errors=True)
+        log("[build] Go build cache was %d MB: cleared" % mb)
+
+
 def build_harness():
     """(re)build the Go harness and the yaccgo CLI against /repo's working tree"""
     os.makedirs(BIN, exist_ok=True)
+    trim_gocache()
     hdir = os.path.join(VERIF, "harness")
     shutil.copy(os.path.join(REPO, "go.sum"), os.path.join(hdir, "go.sum"))
     gomod = open(os.path.join(hdir, "go.mod")).read()
